@@ -344,12 +344,18 @@ def show(rows):
 def run(ctx):
     import beanquery
     ctx.rule = ('S2C: one case = (program tuple, grant sequence, connection mode); non-trivial = the schedule switches '
-                'threads at least once.  C2S: one case = one seeded concurrent run (programs, grant log)')
+                'threads at least once.  C2S: one case = one seeded concurrent run (programs, grant log).  Isolate legs: '
+                'one case = (job tuple, grant sequence, style number)')
     ctx.assumptions += [
         'interleavings are driven at pause points (sub-expression and row granularity); finer interleavings (inside one '
         'evaluation of the column: lookup / compute / store) are model-checked on the specification only',
         'TLC 1.8 with Json/IOUtils, CPython 3.12 threads under the GIL, harness/sched.py (turn-taking scheduler) and '
         'harness/balance.py (projection) are trusted',
+        'Isolate: per case ONE real column stands for each abstract column class (directive identity / row\'s own item); '
+        'harness/isolate.py (statement assembly, decoding of column values to identities) and '
+        'beancount.core.compare.hash_entry (decoding of the id column) are trusted; pause points inside the compilation '
+        'are the folded BQL functions cpause() / cyield(), the wildcard_columns property of harness tables and the '
+        '__getitem__ of the parameters container -- interleavings between other compilation steps are model-checked only',
     ]
     rng = ctx.rng
     sched.register()
@@ -747,7 +753,10 @@ def iso_replay(ctx, rep):
         print('replay:', 'no mismatch' if same else 'MISMATCH reproduced')
         return 0 if same else 1
     case = iso.Case(jobs, case_d['pick'])
-    s, results, excs, texts = iso.run_case(case, order=case_d.get('sched') or case_d.get('grants'))
+    if case_d['kind'] == 'iso-random':     # the scheduler's own choices are a function of the stored seed
+        s, results, excs, texts = iso.run_case(case, rng=random.Random(case_d['sched_seed']))
+    else:
+        s, results, excs, texts = iso.run_case(case, order=case_d['sched'])
     print('replay: statements', texts)
     print('replay: grants', s.log, 'diverged:', s.diverged, 'exceptions:', excs, 'pause-argument mismatches:', s.mismatch)
     print('  concurrent', results)
